@@ -9,35 +9,29 @@
       body, CTE body, set-operation arm - and every subquery executed through [SelectExecutor::execute]
       ([evaluator/*/subqueries.rs]) reaches it before [Database::get_table].  The index scan
       ([scan/index_scan]) is entered from [execute_table_scan] after the check.
-    - three readers do NOT go through it:
-        [select/executor/aggregation/mod.rs: execute_with_aggregation] "fast path: simple COUNT( * )" reads
-          [table.row_count()] (reached when [try_columnar_execution] declines: ORDER BY / LIMIT / OFFSET on the
-          statement, a set-operation right arm, a non-empty CTE context);
-        [evaluator/combined/subqueries.rs: try_index_optimized_in_subquery] scans the table of an
-          [x IN (SELECT col FROM t)] whose [col] is the first column of an index (reached where the
-          DISTINCT-adding rewrite [optimizer/subquery_rewrite] does not look: ORDER BY, GROUP BY, window
-          PARTITION BY expressions);
-        [insert/bulk_transfer.rs: try_bulk_transfer] copies [src_table.scan()] for [INSERT INTO d SELECT * FROM s]
-          without a column list when the schemas are compatible.
-    - [check_insert]: [insert/execution.rs: execute_insert_internal] first statement; the ON DUPLICATE KEY UPDATE
-      ([insert/duplicate_key_update.rs]) and REPLACE ([insert/replace.rs]) branches update / delete existing rows
-      under that one check.
+    - three fast paths read a table without going through [execute_table_scan]; since the fixes
+      "count-star-check-select", "in-subquery-index-check-select" and "bulk-transfer-check-select" each makes the
+      same [check_select] call itself before it touches the table:
+        [select/executor/aggregation/mod.rs: execute_with_aggregation] "fast path: simple COUNT( * )" ([row_count()]);
+        [evaluator/combined/subqueries.rs: try_index_optimized_in_subquery] ([x IN (SELECT col FROM t)] with an
+          index on [col]; reached from ORDER BY / GROUP BY / PARTITION BY expressions);
+        [insert/bulk_transfer.rs: try_bulk_transfer] ([INSERT INTO d SELECT * FROM s], compatible schemas).
+    - [check_insert]: [insert/execution.rs: execute_insert_internal] first statement, followed by [check_update] when
+      the statement has ON DUPLICATE KEY UPDATE and [check_delete] when it is REPLACE / INSERT OR REPLACE (fix
+      "upsert-replace-check"), all before any row is touched.
     - [check_update]: [update/mod.rs: execute_internal] first statement.  [check_delete]: [delete/executor.rs:
-      execute_internal] first statement, [truncate/mod.rs] for every listed table before any work, and
-      [truncate/core.rs: execute_truncate_cascade] for the dependency closure of ONE listed table at a time (the
-      loop over the listed tables truncates table i before the closure of table i+1 is checked).
-    - DELETE evaluates its WHERE clause with [match evaluator.eval(..) { Ok(v) => where_value_is_true(&v)
-      .unwrap_or(false), Err(_) => false }] ([delete/executor.rs: collect_rows_with_scan], "a row whose
-      predicate cannot be evaluated is kept"): an error raised inside a WHERE subquery - including
-      PermissionDenied - makes the row "not selected"; the statement reports success.  UPDATE propagates
-      the error ([update/row_selector.rs]).
-    - the window PARTITION BY clause still swallows: [evaluator/window/partitioning.rs: partition_rows] maps an
-      evaluation error of a partition expression to NULL ([eval_fn(..).unwrap_or(SqlValue::Null)]), so a
-      PermissionDenied raised by a subquery there makes the statement succeed (without the subquery's rows).
-      (The window ORDER BY clause is evaluated by a toy evaluator, [evaluator/window/utils.rs:
-      evaluate_expression], which never runs a subquery at all - for any role; not an access path.)
+      execute_internal] first statement, [truncate/mod.rs] for every listed table before any work; under CASCADE
+      [truncate/core.rs: validate_truncate_cascade] checks the dependency closure of EVERY listed table before the
+      first one is truncated (fix "truncate-cascade-check-first"), then [execute_truncate_cascade] re-checks per table.
+    - DELETE evaluates its WHERE clause per row and keeps a row whose predicate raises an error - except
+      PermissionDenied, which fails the statement ([delete/executor.rs: collect_rows_with_scan], fix
+      "delete-where-propagate-denied"); UPDATE propagates every error.  The window PARTITION BY clause maps evaluation
+      errors to NULL inside [partition_rows], but [select/window/evaluation.rs] remembers the first error and fails
+      the statement (fix "window-partition-propagate-error").  (The window ORDER BY clause is evaluated by a toy
+      evaluator that never runs a subquery, for any role; not an access path.)
     - referential actions ([delete/integrity.rs], [update/foreign_keys.rs]) write the child table without a check
       (SQL: they run with the authority of the constraint, [ARefWrite] below; not counted as a defect).
+    [program_before] keeps the table as it was before these fixes (13 unguarded, 3 silent, 1 partial path).
     Model file: definitions only. *)
 From Coq Require Import List Bool.
 Import ListNotations.
@@ -50,7 +44,8 @@ Inductive access : Type := ASel | AIns | AUpd | ADel.
 
 Inductive action : Type :=
 | ACheck (t : tbl) (a : access)       (* PrivilegeChecker call; failure aborts the statement with PermissionDenied *)
-| ACheckSoft (t : tbl) (a : access)   (* the same call, but the caller swallows the error: the rest is skipped, the statement succeeds *)
+| ACheckSoft (t : tbl) (a : access)   (* the same call, but the caller swallows the error: the rest is skipped, the statement succeeds
+                                         (no path of the current code does; DELETE's WHERE and the window PARTITION BY clause used to) *)
 | ARead (t : tbl)                     (* rows of t flow into the result or decide the effect *)
 | AWrite (t : tbl) (a : access)       (* rows of t are inserted / updated / deleted *)
 | ARefWrite (t : tbl).                (* referential action on a child table *)
@@ -167,8 +162,8 @@ Definition all_paths : list path :=
 Definition read_S : list action := [ACheck TS ASel; ARead TS].
 Definition read_M : list action := [ACheck TM ASel; ARead TM].
 
-(** what the code does on each path (checks in call order) *)
-Definition program (p : path) : list action :=
+(** the table as it was before the C26 fixes (kept for the record and for [PrivPathsLaws.before_*]) *)
+Definition program_before (p : path) : list action :=
   match p with
   | P_scan | P_scan_where | P_index_scan | P_pk_lookup | P_order_limit
   | P_derived | P_cte | P_count_star | P_sum | P_group_by => read_S
@@ -210,6 +205,22 @@ Definition program (p : path) : list action :=
   | P_fk_cascade_update => [ACheck TT AUpd; AWrite TT AUpd; ARefWrite TC]
   end.
 
+(** what the code does on each path (checks in call order) *)
+Definition program (p : path) : list action :=
+  match p with
+  | P_count_star_order_by | P_count_star_limit | P_count_star_union_arm | P_count_star_with_cte => read_S
+  | P_count_star_scalar_limit | P_in_index_order_by | P_in_index_group_by | P_in_index_partition_by => read_M ++ read_S
+  | P_insert_select_bulk => ACheck TT AIns :: read_S ++ [AWrite TT AIns]
+  | P_on_duplicate_key_update => [ACheck TU AIns; ACheck TU AUpd; AWrite TU AUpd; AWrite TU AIns]
+  | P_replace_into | P_insert_or_replace => [ACheck TU AIns; ACheck TU ADel; AWrite TU ADel; AWrite TU AIns]
+  | P_delete_where_subquery | P_delete_where_exists => ACheck TU ADel :: read_S ++ [AWrite TU ADel]
+  | P_window_partition_subquery => read_M ++ read_S
+  | P_truncate_multi_cascade =>
+      [ACheck TU ADel; ACheck TP ADel; ACheck TU ADel; ACheck TD ADel; ACheck TP ADel;
+       AWrite TU ADel; AWrite TD ADel; AWrite TP ADel]
+  | _ => program_before p
+  end.
+
 (** what the property requires of each shape (written down from the SQL text, independently of [program]) *)
 Definition required (p : path) : list (tbl * access) :=
   match p with
@@ -235,57 +246,6 @@ Definition required (p : path) : list (tbl * access) :=
   | P_replace_into | P_insert_or_replace => [(TU, AIns); (TU, ADel)]
   | P_fk_cascade_delete => [(TT, ADel)]
   | P_fk_cascade_update => [(TT, AUpd)]
-  end.
-
-(** ** the listed defect classes (known.d/C26.txt) *)
-Inductive defect : Type :=
-| D_count_star_fast_path | D_in_subquery_index_path | D_insert_select_bulk_transfer
-| D_insert_on_duplicate_key_update | D_insert_replace
-| D_delete_where_error_swallowed | D_window_clause_error_swallowed | D_truncate_multi_cascade_partial.
-
-Definition defect_of (p : path) : option defect :=
-  match p with
-  | P_count_star_order_by | P_count_star_limit | P_count_star_union_arm | P_count_star_with_cte
-  | P_count_star_scalar_limit => Some D_count_star_fast_path
-  | P_in_index_order_by | P_in_index_group_by | P_in_index_partition_by => Some D_in_subquery_index_path
-  | P_insert_select_bulk => Some D_insert_select_bulk_transfer
-  | P_on_duplicate_key_update => Some D_insert_on_duplicate_key_update
-  | P_replace_into | P_insert_or_replace => Some D_insert_replace
-  | P_delete_where_subquery | P_delete_where_exists => Some D_delete_where_error_swallowed
-  | P_window_partition_subquery => Some D_window_clause_error_swallowed
-  | P_truncate_multi_cascade => Some D_truncate_multi_cascade_partial
-  | _ => None
-  end.
-
-(** defects that let data through (the other two only concern how a refusal is reported / how far it gets) *)
-Definition unguarded_known (p : path) : bool :=
-  match defect_of p with
-  | Some D_count_star_fast_path | Some D_in_subquery_index_path | Some D_insert_select_bulk_transfer
-  | Some D_insert_on_duplicate_key_update | Some D_insert_replace => true
-  | _ => false
-  end.
-Definition silent_known (p : path) : bool :=
-  match defect_of p with
-  | Some D_delete_where_error_swallowed | Some D_window_clause_error_swallowed => true
-  | _ => false
-  end.
-Definition partial_known (p : path) : bool :=
-  match defect_of p with Some D_truncate_multi_cascade_partial => true | _ => false end.
-
-(** ** the programs after the proposed repairs (fixes/C26-*.patch) *)
-Definition program_fixed (p : path) : list action :=
-  match p with
-  | P_count_star_order_by | P_count_star_limit | P_count_star_union_arm | P_count_star_with_cte => read_S
-  | P_count_star_scalar_limit | P_in_index_order_by | P_in_index_group_by | P_in_index_partition_by => read_M ++ read_S
-  | P_insert_select_bulk => ACheck TT AIns :: read_S ++ [AWrite TT AIns]
-  | P_on_duplicate_key_update => [ACheck TU AIns; ACheck TU AUpd; AWrite TU AUpd; AWrite TU AIns]
-  | P_replace_into | P_insert_or_replace => [ACheck TU AIns; ACheck TU ADel; AWrite TU ADel; AWrite TU AIns]
-  | P_delete_where_subquery | P_delete_where_exists => ACheck TU ADel :: read_S ++ [AWrite TU ADel]
-  | P_window_partition_subquery => read_M ++ read_S
-  | P_truncate_multi_cascade =>
-      [ACheck TU ADel; ACheck TP ADel; ACheck TU ADel; ACheck TD ADel; ACheck TP ADel;
-       AWrite TU ADel; AWrite TD ADel; AWrite TP ADel]
-  | _ => program p
   end.
 
 (** [held] from a list of granted (table, access) pairs *)
